@@ -244,6 +244,45 @@ Proof.
   - repeat split; vm_compute; reflexivity.
 Qed.
 
+(** *** (round st3weak, seed C06-J) a MUTABLE impedance.  The field holds its impedance through a shared pointer; the
+    object behind it may change between calls (Impedance::operator+=, assignment through the other owner).  A history
+    is a list of segments (impedance table in force, Wake/Pad/CSR operations run while it is in force), all run through
+    the GENERATED programs on one object: whatever the earlier segments, the wake potential the generated
+    wakePotential() leaves is the convolution of the CURRENT profiles with the kernel of the table in force AT THAT
+    CALL (nothing of an earlier table, no stored potential).  A wakePotential() that returns a stored result, or works
+    on a copy of the table taken earlier, is not the generated program of this statement: the translator refuses it. *)
+From Inovesa Require Import Proofs.EFieldZHistP.
+
+Theorem C06_generated_wake_mutable_impedance :
+  forall (K : Fld) (P : fobj K),
+    2 <= oN P -> hypB (E_of K P) -> (forall c : K, osgn P c = Gt -> c <> f0) ->
+    twiddle_laws K (ocs P) (osn P) ->
+  forall (segs : list (seg K)) (Zi : Z -> cplx K) (h : list (op K)) (p : Z -> K) (b : nat) (x : Z),
+    (b < length (obks P))%nat -> 0 <= x < on P -> 0 <= nth b (obks P) 0 * ospc P + x < oN P ->
+    disjoint_wins (on P) (ospc P) (train K P p) -> in_buffer K (oN P) (on P) (ospc P) (train K P p) ->
+    wake (run_segs_gen K P (segs ++ [(Zi, h ++ [Wake p])]) (fresh (E_of K P))) (Z.of_nat b * on P + x)
+    = (oscale P * fsum (map (fun b' => sumZ 0 (Z.to_nat (on P))
+          (fun x' => snd b' x' * kernel K (oN P) (ocs P) (osn P) Zi ((nth b (obks P) 0%Z - fst b') * ospc P + x - x')))
+          (train K P p)))%F.
+Proof. exact gen_wake_mutable_impedance_is_convolution. Qed.
+Print Assumptions C06_generated_wake_mutable_impedance.
+
+(** non-vacuity: the two-bunch object of [C06_generated_example]; a first segment under [ex_Z] (wake, CSR), then the
+    table is changed to 2*ex_Z + (1,0) and wakePotential() is asked with the SAME profiles: the generated run gives
+    the convolution with the NEW table (and differs from the first call's result) *)
+Example C06_generated_mutable_impedance_example :
+  let P := Fobj QcF 4 cs4 sn4 2 2 [1; 0] ex_Z (Qcz 2) 1%Qc 1%Qc 1%Qc (fun i => Qcz i) (fun x => x)
+                (fun c => (c ?= 0)%Qc) (fun l => l) in
+  let p := getz 0%Qc (map Qcz [1; 2; 3; 5]) in
+  let Z2 := fun k : Z => ((Qcz 2 * fst (ex_Z k) + 1)%Qc, (Qcz 2 * snd (ex_Z k))%Qc) in
+  map (wake (run_segs_gen QcF P ([(ex_Z, [Wake p; CSR 0%Qc p])] ++ [(Z2, [] ++ [Wake p])]) (fresh (E_of QcF P)))) (zrange 4)
+  = map (fun bx => (Qcz 2 * fsum (map (fun b' => sumZ (K:=QcF) 0 2
+          (fun x' => snd b' x' * kernel QcF 4 cs4 sn4 Z2 ((nth (Z.to_nat (fst bx)) [1; 0] 0 - fst b') * 2 + snd bx - x')%Z))
+          (train QcF P p)))%Qc) [(0, 0); (0, 1); (1, 0); (1, 1)]
+  /\ map (wake (run_segs_gen QcF P ([(ex_Z, [Wake p; CSR 0%Qc p])] ++ [(Z2, [] ++ [Wake p])]) (fresh (E_of QcF P)))) (zrange 4)
+     <> map (wake (run_gen QcF P ([] ++ [Wake p]))) (zrange 4).
+Proof. split; [vm_compute; reflexivity|vm_compute; discriminate]. Qed.
+
 (** *** (family scaling) the padded lengths main() hands to the fields, over the definitions GENERATED from
     main() on every run (Gen/Gen_ScalingZ.v; replaces the former text check of the main.cpp lines).
     spacing_bins = round(fl(GridSize*spacing_ps)); the radiation field's length is ceil(fl(GridSize*max(padding,1)));
